@@ -14,7 +14,10 @@ SPELL = {
     "Comma": [","], "QuestionMark": ["?"], "If": ["if"], "Then": ["then"], "Else": ["else"],
     "True": ["true"], "False": ["false"], "NaN": ["NaN"], "Inf": ["inf"],
     "LeftBracket": ["["], "RightBracket": ["]"], "LeftCurly": ["{"], "RightCurly": ["}"], "Colon": [":"],
-    "Period": ["."], "Equal": ["="], "Semicolon": [";"], "Newline": ["\n"], "Let": ["let"],
+    "Period": ["."], "Equal": ["="], "Semicolon": [";"], "Newline": ["\n"], "Let": ["let"], "Fn": ["fn"], "Dimension": ["dimension"], "Unit": ["unit"], "Use": ["use"],
+    "Struct": ["struct"], "At": ["@"], "DoubleColon": ["::"], "Where": ["where"], "And": ["and"], "Long": ["long"],
+    "Short": ["short"], "Both": ["both"], "None": ["none"], "Bool": ["Bool"], "String": ["String"],
+    "DateTime": ["DateTime"], "CapitalFn": ["Fn"], "List": ["List"],
     "ProcedurePrint": ["print"], "ProcedureAssert": ["assert"], "ProcedureAssertEq": ["assert_eq"], "ProcedureType": ["type"],
 }
 BINLEVEL = {"Arrow": 2, "To": 2, "LogicalOr": 3, "LogicalAnd": 4, "LessThan": 6, "GreaterThan": 6,
